@@ -17,3 +17,36 @@ Theorem C06_rejected_data_message_is_inert : forall now c ver stag rtag d aux rn
   c' = c <| c_injections := [] |>.
 Proof. exact rejected_data_message_is_inert. Qed.
 Print Assumptions C06_rejected_data_message_is_inert.
+
+(* in the key exchange: a Signature message that fails the MAC, the decryption or the signature check *)
+Theorem C06_rejected_signature_is_inert : forall now c ver stag rtag es mac aux rnd a,
+  isOTREnabled (c_policies c) = true -> header_ok c ver stag rtag ->
+  c_ake c = Some a -> a_state a = 3 ->
+  fst (fst (processEncryptedSig es mac 4 c [])) = false ->
+  let '(c', r) := step now c (CReceive (WEnc ver stag rtag (EAke (BSig es mac))) aux rnd) in
+  r_plain r = None /\ r_out r = c_injections c /\ r_err r = 1 /\ r_events r = [c_MessageEventSetupError] /\
+  c' = c <| c_injections := [] |>.
+Proof. exact rejected_signature_is_inert. Qed.
+Print Assumptions C06_rejected_signature_is_inert.
+
+(* a version 3 message for / from another instance (any type, any body) *)
+Theorem C06_foreign_instance_message_is_inert : forall now c stag rtag body aux rnd,
+  isOTREnabled (c_policies c) = true -> c_version c = 3 ->
+  c_minValidInstanceTag <= stag -> (rtag = 0 \/ c_minValidInstanceTag <= rtag) ->
+  ((rtag <> 0 /\ rtag <> c_ourTag c) \/ (c_theirTag c <> 0 /\ stag <> c_theirTag c)) ->
+  let '(c', r) := step now c (CReceive (WEnc 3 stag rtag body) aux rnd) in
+  r_plain r = None /\ r_out r = c_injections c /\ r_err r = 0 /\
+  r_events r = [c_MessageEventReceivedMessageForOtherInstance] /\
+  c' = c <| c_injections := [] |>.
+Proof. exact foreign_instance_ignored. Qed.
+Print Assumptions C06_foreign_instance_message_is_inert.
+
+(* an unreadable D-H Commit leaves an exchange that is in progress alone *)
+Theorem C06_unreadable_commit_is_inert : forall now c ver stag rtag flag aux rnd a,
+  isOTREnabled (c_policies c) = true -> header_ok c ver stag rtag ->
+  c_ake c = Some a -> (a_state a = 2 \/ a_state a = 3) ->
+  let '(c', r) := step now c (CReceive (WEnc ver stag rtag (EBadBody c_msgTypeDHCommit flag)) aux rnd) in
+  r_plain r = None /\ r_out r = c_injections c /\ r_err r = 1 /\ r_events r = [c_MessageEventSetupError] /\
+  c' = c <| c_injections := [] |>.
+Proof. exact unreadable_commit_is_inert. Qed.
+Print Assumptions C06_unreadable_commit_is_inert.
